@@ -401,6 +401,374 @@ Theorem int_changed_commitment_fails k m r c' :
   c' mod ik_n k <> int_commit k m r -> int_open k c' m r = false.
 Proof. intros Hne. apply not_true_is_false. intros Ho. apply int_open_spec in Ho. congruence. Qed.
 
+(* --- signed powers mod N, the exponent view of ring-Pedersen commitments --- *)
+
+(* ---------- Euclid terminates within the fuel ---------- *)
+Definition egcd_g (fuel : nat) (a b : Z) : Z := fst (fst (egcd fuel a b)).
+
+Lemma egcd_g_S k a b : egcd_g (S k) a b = if b =? 0 then a else egcd_g k b (a mod b).
+Proof.
+  unfold egcd_g. cbn [egcd]. destruct (b =? 0); [reflexivity|].
+  destruct (egcd k b (a mod b)) as [[g x] y]. reflexivity.
+Qed.
+
+Lemma mod_halves b c : 0 < c <= b -> b mod c <= (b - 1) / 2.
+Proof.
+  intros Hc. apply Z.div_le_lower_bound; [lia|].
+  pose proof (Z.mod_pos_bound b c ltac:(lia)) as Hm.
+  pose proof (Z.div_mod b c ltac:(lia)) as Hd.
+  assert (1 <= b / c) by (apply Z.div_le_lower_bound; lia).
+  nia.
+Qed.
+
+Lemma egcd_g_gcd n : forall a b, 0 <= a -> 0 <= b < 2 ^ Z.of_nat n ->
+  egcd_g (2 * n + 1) a b = Z.gcd a b.
+Proof.
+  induction n as [|n IH]; intros a b Ha Hb.
+  - cbn in Hb. assert (b = 0) by lia. subst b. cbn [Nat.mul Nat.add]. rewrite egcd_g_S. cbn [Z.eqb].
+    rewrite Z.gcd_0_r_nonneg by lia. reflexivity.
+  - replace (2 * S n + 1)%nat with (S (S (2 * n + 1))) by lia. rewrite egcd_g_S.
+    destruct (Z.eqb_spec b 0) as [->|Hb0]; [rewrite Z.gcd_0_r_nonneg by lia; reflexivity|].
+    pose proof (Z.mod_pos_bound a b ltac:(lia)) as Hc.
+    rewrite egcd_g_S.
+    rewrite (Z.gcd_comm a b). rewrite <- (Z.gcd_mod a b) by lia.
+    destruct (Z.eqb_spec (a mod b) 0) as [Hc0|Hc0].
+    + rewrite Hc0. cbn [Z.gcd]. rewrite Z.abs_eq by lia. reflexivity.
+    + rewrite IH.
+      * rewrite (Z.gcd_comm (a mod b) (b mod (a mod b))). apply Z.gcd_mod. lia.
+      * lia.
+      * split; [apply Z.mod_pos_bound; lia|].
+        pose proof (mod_halves b (a mod b) ltac:(lia)) as Hh.
+        rewrite Nat2Z.inj_succ, Z.pow_succ_r in Hb by lia.
+        assert ((b - 1) / 2 < 2 ^ Z.of_nat n) by (apply Z.div_lt_upper_bound; lia). lia.
+Qed.
+
+Lemma try_inv_complete q a b : 1 < q -> (a * b) mod q = 1 -> exists x, try_inv q a = Some x.
+Proof.
+  intros Hq Hab. unfold try_inv.
+  set (fuel := S (Z.to_nat (Z.log2_up q) * 2 + 2)).
+  assert (Hg : egcd_g fuel (a mod q) q = 1).
+  { pose proof (Z.log2_up_spec q Hq) as [_ Hl].
+    assert (Hpos : 0 <= Z.log2_up q) by apply Z.log2_up_nonneg.
+    replace fuel with (2 * (S (Z.to_nat (Z.log2_up q))) + 1)%nat by (unfold fuel; lia).
+    rewrite egcd_g_gcd.
+    - rewrite Z.gcd_mod by lia. rewrite Z.gcd_comm. apply Z.bezout_1_gcd.
+      exists b, (- ((a * b) / q)). pose proof (Z.div_mod (a * b) q ltac:(lia)) as Hd. rewrite Hab in Hd. lia.
+    - apply Z.mod_pos_bound; lia.
+    - split; [lia|]. rewrite Nat2Z.inj_succ, Z2Nat.id, Z.pow_succ_r by lia. lia. }
+  unfold egcd_g in Hg. destruct (egcd fuel (a mod q) q) as [[g x] y]. cbn in Hg. subst g.
+  cbn [Z.eqb Pos.eqb]. eexists; reflexivity.
+Qed.
+
+(* ---------- units and signed powers mod N ---------- *)
+Section ZN.
+  Variable N : Z.
+  Hypothesis HN : 1 < N.
+  Local Notation "a == b" := (eqm N a b) (at level 70).
+
+  Lemma eqm_1 x : x == 1 <-> x mod N = 1.
+  Proof. unfold eqm. rewrite (Z.mod_1_l N HN). tauto. Qed.
+
+  Lemma pow_eqm a b k : a == b -> a ^ k == b ^ k.
+  Proof. unfold eqm. intros E. rewrite (Zpower_mod a), (Zpower_mod b), E by lia. reflexivity. Qed.
+
+  Global Instance pow_eqm_proper : Proper (eqm N ==> eq ==> eqm N) Z.pow.
+  Proof. intros a b E k k' <-. apply pow_eqm. exact E. Qed.
+
+  Definition isinv (a ai : Z) : Prop := a * ai == 1.
+
+  Lemma inv_unique a x y : isinv a x -> isinv a y -> x == y.
+  Proof.
+    unfold isinv. intros Hx Hy.
+    transitivity (x * (a * y)); [rewrite Hy; unfold eqm; f_equal; ring|].
+    transitivity ((a * x) * y); [unfold eqm; f_equal; ring|]. rewrite Hx. unfold eqm; f_equal; ring.
+  Qed.
+
+  Lemma zn_inv_spec a ai : isinv a ai -> isinv a (zn_inv N a) /\ zn_inv N a = ai mod N.
+  Proof.
+    intros Hi. unfold zn_inv.
+    destruct (try_inv_complete N a ai HN) as [x Hx]; [apply eqm_1; exact Hi|].
+    rewrite Hx. destruct (try_inv_correct N a x HN Hx) as [Hax Hr].
+    assert (Hix : isinv a x) by (apply eqm_1; exact Hax).
+    split; [exact Hix|].
+    pose proof (inv_unique a x ai Hix Hi) as E. unfold eqm in E. rewrite Z.mod_small in E by lia. exact E.
+  Qed.
+
+  Lemma zn_inv_compat a b : a == b -> zn_inv N a = zn_inv N b.
+  Proof. unfold zn_inv, try_inv, eqm. intros ->. reflexivity. Qed.
+
+  Lemma expi_nonneg a e : 0 <= e -> zn_expi N a e = a ^ e mod N.
+  Proof.
+    intros He. unfold zn_expi. destruct (Z.leb_spec 0 e); [|lia]. apply Zpow_mod_correct. lia.
+  Qed.
+
+  Lemma expi_neg a e : e < 0 -> zn_expi N a e = (zn_inv N a) ^ (- e) mod N.
+  Proof.
+    intros He. unfold zn_expi. destruct (Z.leb_spec 0 e); [lia|]. apply Zpow_mod_correct. lia.
+  Qed.
+
+  Lemma expi_range a e : 0 <= zn_expi N a e < N.
+  Proof.
+    destruct (Z_le_gt_dec 0 e); [rewrite expi_nonneg by lia|rewrite expi_neg by lia]; apply Z.mod_pos_bound; lia.
+  Qed.
+
+  Lemma expi_compat a b e : a == b -> zn_expi N a e = zn_expi N b e.
+  Proof.
+    intros E. destruct (Z_le_gt_dec 0 e).
+    - rewrite !expi_nonneg by lia. apply pow_eqm. exact E.
+    - rewrite !expi_neg by lia. rewrite (zn_inv_compat a b E). reflexivity.
+  Qed.
+
+  Lemma pow_inv_cancel a ai k : isinv a ai -> 0 <= k -> a ^ k * ai ^ k == 1.
+  Proof.
+    intros Hi Hk. rewrite <- Z.pow_mul_l. unfold isinv in Hi. rewrite Hi. rewrite Z.pow_1_l by lia. reflexivity.
+  Qed.
+
+  (* characterisation of the signed power through non-negative powers *)
+  Lemma expi_key a ai e n : isinv a ai -> 0 <= n -> 0 <= e + n -> zn_expi N a e * a ^ n == a ^ (e + n).
+  Proof.
+    intros Hi Hn Hen. destruct (Z_le_gt_dec 0 e) as [He|He].
+    - rewrite expi_nonneg by lia. rewrite (Zmod_eqm N). rewrite Z.pow_add_r by lia. reflexivity.
+    - rewrite expi_neg by lia. rewrite (Zmod_eqm N).
+      destruct (zn_inv_spec a ai Hi) as [Hi' _].
+      replace n with ((- e) + (e + n)) at 1 by ring. rewrite Z.pow_add_r by lia.
+      transitivity ((a ^ (- e) * zn_inv N a ^ (- e)) * a ^ (e + n)); [unfold eqm; f_equal; ring|].
+      rewrite (pow_inv_cancel a _ (- e) Hi') by lia. unfold eqm; f_equal; ring.
+  Qed.
+
+  Lemma cancel_pow a ai x y n : isinv a ai -> 0 <= n -> x * a ^ n == y * a ^ n -> x == y.
+  Proof.
+    intros Hi Hn E.
+    transitivity (x * (a ^ n * ai ^ n)); [rewrite (pow_inv_cancel a ai n Hi Hn); unfold eqm; f_equal; ring|].
+    transitivity ((x * a ^ n) * ai ^ n); [unfold eqm; f_equal; ring|]. rewrite E.
+    transitivity (y * (a ^ n * ai ^ n)); [unfold eqm; f_equal; ring|].
+    rewrite (pow_inv_cancel a ai n Hi Hn). unfold eqm; f_equal; ring.
+  Qed.
+
+  Lemma expi_char a ai e n x : isinv a ai -> 0 <= n -> 0 <= e + n ->
+    x * a ^ n == a ^ (e + n) -> x == zn_expi N a e.
+  Proof.
+    intros Hi Hn Hen E. apply (cancel_pow a ai _ _ n Hi Hn). rewrite E. symmetry. apply (expi_key a ai); assumption.
+  Qed.
+
+  Lemma expi_add a ai e1 e2 : isinv a ai ->
+    zn_expi N a e1 * zn_expi N a e2 == zn_expi N a (e1 + e2).
+  Proof.
+    intros Hi. apply (expi_char a ai (e1 + e2) (Z.abs e1 + Z.abs e2)); [exact Hi|lia|lia|].
+    rewrite Z.pow_add_r by lia.
+    transitivity ((zn_expi N a e1 * a ^ Z.abs e1) * (zn_expi N a e2 * a ^ Z.abs e2)); [unfold eqm; f_equal; ring|].
+    rewrite (expi_key a ai e1), (expi_key a ai e2) by (assumption || lia).
+    rewrite <- Z.pow_add_r by lia. unfold eqm; f_equal; f_equal; ring.
+  Qed.
+
+  Lemma expi_0 a : zn_expi N a 0 = 1.
+  Proof. rewrite expi_nonneg by lia. cbn. apply Z.mod_1_l. exact HN. Qed.
+
+  Lemma expi_isinv a ai e : isinv a ai -> isinv (zn_expi N a e) (zn_expi N a (- e)).
+  Proof.
+    intros Hi. unfold isinv. rewrite (expi_add a ai) by exact Hi.
+    replace (e + - e) with 0 by ring. rewrite expi_0. reflexivity.
+  Qed.
+
+  (* power of a power, signed exponents *)
+  Lemma expi_mul_nonneg a ai e k : isinv a ai -> 0 <= k ->
+    zn_expi N (zn_expi N a e) k == zn_expi N a (e * k).
+  Proof.
+    intros Hi Hk. rewrite (expi_nonneg _ k Hk), (Zmod_eqm N).
+    apply (expi_char a ai (e * k) (Z.abs e * k)); [exact Hi|nia|nia|].
+    rewrite Z.pow_mul_r by lia. rewrite <- Z.pow_mul_l.
+    rewrite (expi_key a ai e (Z.abs e)) by (assumption || lia).
+    rewrite <- Z.pow_mul_r by lia. unfold eqm; f_equal; f_equal; ring.
+  Qed.
+
+  Lemma expi_mul a ai e k : isinv a ai -> zn_expi N (zn_expi N a e) k == zn_expi N a (e * k).
+  Proof.
+    intros Hi. destruct (Z_le_gt_dec 0 k) as [Hk|Hk]; [apply (expi_mul_nonneg a ai); assumption|].
+    rewrite (expi_neg _ k) by lia. rewrite (Zmod_eqm N).
+    destruct (zn_inv_spec _ _ (expi_isinv a ai e Hi)) as [_ Hz]. rewrite Hz.
+    pose proof (expi_range a (- e)) as Hr. rewrite Z.mod_small by exact Hr.
+    pose proof (expi_mul_nonneg a ai (- e) (- k) Hi ltac:(lia)) as E.
+    rewrite (expi_nonneg _ (- k)) in E by lia. rewrite (Zmod_eqm N) in E. rewrite E.
+    replace (- e * - k) with (e * k) by ring. reflexivity.
+  Qed.
+
+  (* product of bases *)
+  Lemma expi_mul_base a ai b bi e : isinv a ai -> isinv b bi ->
+    zn_expi N (a * b) e == zn_expi N a e * zn_expi N b e.
+  Proof.
+    intros Ha Hb.
+    assert (Hab : isinv (a * b) (ai * bi)).
+    { unfold isinv in *. transitivity ((a * ai) * (b * bi)); [unfold eqm; f_equal; ring|]. rewrite Ha, Hb. reflexivity. }
+    symmetry. apply (expi_char (a * b) (ai * bi) e (Z.abs e)); [exact Hab|lia|lia|].
+    rewrite !Z.pow_mul_l.
+    transitivity ((zn_expi N a e * a ^ Z.abs e) * (zn_expi N b e * b ^ Z.abs e)); [unfold eqm; f_equal; ring|].
+    rewrite (expi_key a ai e), (expi_key b bi e) by (assumption || lia). reflexivity.
+  Qed.
+End ZN.
+
+(* ---------- intcom ---------- *)
+Section IntCom.
+  Variable k : int_key.
+  Variable lambda ti : Z.
+  Let N := ik_n k.
+  Let s := ik_s k.
+  Let t := ik_t k.
+  Hypothesis HN : 1 < N.
+  Hypothesis Ht : isinv N t ti.                 (* t is a unit of Z_N *)
+  Hypothesis Hl : 0 <= lambda.
+  Hypothesis Hs : s = t ^ lambda mod N.         (* s = t^λ, as the trapdoor key derives it *)
+  Local Notation "a == b" := (eqm N a b) (at level 70).
+
+  Lemma eqm_range_eq x y : 0 <= y < N -> x == y -> x mod N = y.
+  Proof. intros Hy E. unfold eqm in E. rewrite E. apply Z.mod_small. exact Hy. Qed.
+
+  Lemma s_is_expi : s = zn_expi N t lambda.
+  Proof. rewrite Hs. symmetry. apply expi_nonneg; assumption. Qed.
+
+  Lemma s_pow m : zn_expi N s m == zn_expi N t (lambda * m).
+  Proof. rewrite s_is_expi. apply (expi_mul N HN t ti). exact Ht. Qed.
+
+  (* the commitment is t to the power λ·m + r *)
+  Lemma int_commit_exponent m r : int_commit k m r = zn_expi N t (lambda * m + r).
+  Proof.
+    unfold int_commit. fold N s t. apply eqm_range_eq; [apply expi_range; exact HN|].
+    rewrite s_pow. apply (expi_add N HN t ti). exact Ht.
+  Qed.
+
+  Lemma int_scheme_laws : hlaws (int_scheme k).
+  Proof.
+    constructor; cbn [int_scheme hs_commit hs_mop hs_minv hs_mscal hs_wop hs_winv hs_wscal hs_cop hs_cinv hs_cscal hs_rer hs_shift]; intros.
+    - unfold int_commitment_op. fold N. rewrite !int_commit_exponent.
+      apply eqm_range_eq; [apply expi_range; exact HN|].
+      rewrite (expi_add N HN t ti) by exact Ht. replace (lambda * m1 + r1 + (lambda * m2 + r2)) with (lambda * (m1 + m2) + (r1 + r2)) by ring. reflexivity.
+    - unfold int_commitment_op_inv. fold N. rewrite !int_commit_exponent.
+      destruct (zn_inv_spec N HN _ _ (expi_isinv N HN t ti (lambda * m + r) Ht)) as [_ E]. rewrite E.
+      replace (lambda * - m + - r) with (- (lambda * m + r)) by ring.
+      apply Z.mod_small. apply expi_range; exact HN.
+    - unfold int_commitment_scalar_op. fold N. rewrite !int_commit_exponent.
+      pose proof (expi_mul N HN t ti (lambda * m + r) s0 Ht) as E.
+      apply (eqm_range_eq _ (zn_expi N t ((lambda * m + r) * s0))) in E; [|apply expi_range; exact HN].
+      rewrite Z.mod_small in E by (apply expi_range; exact HN). rewrite E. f_equal. ring.
+    - unfold int_rerandomise. fold N t. rewrite !int_commit_exponent.
+      apply eqm_range_eq; [apply expi_range; exact HN|].
+      rewrite (expi_add N HN t ti) by exact Ht. replace (lambda * m + r + s0) with (lambda * m + (r + s0)) by ring. reflexivity.
+    - unfold int_shift. fold N s. rewrite !int_commit_exponent.
+      apply eqm_range_eq; [apply expi_range; exact HN|].
+      rewrite s_pow. rewrite (expi_add N HN t ti) by exact Ht.
+      replace (lambda * m + r + lambda * d) with (lambda * (m + d) + r) by ring. reflexivity.
+  Qed.
+
+  Theorem int_program_opens ops :
+    Forall (fun g => let '(m, r, c) := g in int_open k c m r = true) (hrun (int_scheme k) ops).
+  Proof.
+    pose proof (hrun_tracked (int_scheme k) int_scheme_laws ops) as Hr.
+    eapply Forall_impl; [|exact Hr]. intros [[m r] c] E. cbn in E. subst c. apply int_open_complete.
+  Qed.
+
+  (* --- the order of t --- *)
+  Variable ord : Z.
+  Hypothesis Hord : 0 < ord.
+  Hypothesis Htord : t ^ ord mod N = 1.
+
+  Lemma expi_one j : zn_expi N 1 j = 1.
+  Proof.
+    destruct (Z_le_gt_dec 0 j).
+    - rewrite expi_nonneg by lia. rewrite Z.pow_1_l by lia. apply Z.mod_1_l. exact HN.
+    - rewrite expi_neg by lia.
+      assert (H1 : isinv N 1 1) by (unfold isinv; reflexivity).
+      destruct (zn_inv_spec N HN 1 1 H1) as [_ E]. rewrite E, Z.mod_1_l by exact HN.
+      rewrite Z.pow_1_l by lia. apply Z.mod_1_l. exact HN.
+  Qed.
+
+  Lemma expi_ord_multiple j : zn_expi N t (ord * j) = 1.
+  Proof.
+    pose proof (expi_mul N HN t ti ord j Ht) as E.
+    rewrite (expi_nonneg N HN t ord) in E by lia. rewrite Htord, expi_one in E.
+    symmetry in E. apply eqm_range_eq in E; [|lia].
+    pose proof (expi_range N HN t (ord * j)). rewrite Z.mod_small in E by assumption. exact E.
+  Qed.
+
+  Lemma expi_mod_ord e : zn_expi N t e = zn_expi N t (e mod ord).
+  Proof.
+    pose proof (Z.div_mod e ord ltac:(lia)) as Hd.
+    pose proof (expi_add N HN t ti (ord * (e / ord)) (e mod ord) Ht) as E.
+    rewrite <- Hd in E. rewrite expi_ord_multiple in E. rewrite Z.mul_1_l in E.
+    symmetry in E. apply eqm_range_eq in E; [|apply expi_range; exact HN].
+    rewrite Z.mod_small in E by (apply expi_range; exact HN). exact E.
+  Qed.
+
+  (* two openings give the same commitment whenever λ·m + r agree mod ord(t) *)
+  Theorem int_openings_coincide_if m r m' r' :
+    (lambda * m + r) mod ord = (lambda * m' + r') mod ord -> int_commit k m r = int_commit k m' r'.
+  Proof. intros E. rewrite !int_commit_exponent. rewrite expi_mod_ord, E, <- expi_mod_ord. reflexivity. Qed.
+
+  (* Equivocate's witness opens the same commitment to the new message *)
+  Theorem int_equivocate_opens m r m' r' :
+    int_equivocate_ok k ord lambda m r m' r' = true -> int_open k (int_commit k m r) m' r' = true.
+  Proof.
+    unfold int_equivocate_ok. intros Hok. apply int_open_spec. rewrite int_commit_normal.
+    destruct (Z.eqb_spec m m') as [->|Hne].
+    - apply Z.eqb_eq in Hok. subst r'. reflexivity.
+    - apply andb_true_iff in Hok. destruct Hok as [Hc _]. apply Z.eqb_eq in Hc.
+      apply int_openings_coincide_if.
+      apply Z.mod_divide in Hc; [|lia]. destruct Hc as [j Hj].
+      replace (lambda * m' + r') with (lambda * m + r + j * ord) by lia.
+      symmetry. apply Z_mod_plus_full.
+  Qed.
+
+  (* --- exactness: ord is the order of t --- *)
+  Hypothesis Hexact : forall e, 0 < e < ord -> t ^ e mod N <> 1.
+
+  Lemma expi_inj_below a b : 0 <= a <= b -> b < ord -> zn_expi N t a = zn_expi N t b -> a = b.
+  Proof.
+    intros Hab Hb E.
+    assert (Ha0 : 0 <= a) by (clear - Hab; lia). assert (Hb0 : 0 <= b) by (clear - Hab; lia).
+    rewrite (expi_nonneg N HN t a Ha0), (expi_nonneg N HN t b Hb0) in E.
+    destruct (Z.eq_dec a b) as [|Hne]; [assumption|exfalso].
+    assert (Hba : 0 < b - a < ord) by (clear - Hab Hb Hne; lia).
+    assert (Hba0 : 0 <= b - a) by (clear - Hba; lia).
+    apply (Hexact (b - a) Hba).
+    apply (eqm_1 N HN). symmetry.
+    apply (cancel_pow N HN t ti 1 (t ^ (b - a)) a Ht Ha0).
+    rewrite <- (Z.pow_add_r t (b - a) a Hba0 Ha0). replace (b - a + a) with b by ring.
+    rewrite Z.mul_1_l. unfold eqm. exact E.
+  Qed.
+
+  (* the honest statement about binding: exactly the openings with λ·m + r ≡ λ·m' + r'
+     modulo the order of t coincide (finding such a pair without λ is what hardness excludes) *)
+  Theorem int_openings_coincide_iff m r m' r' :
+    int_commit k m r = int_commit k m' r' <-> (lambda * m + r) mod ord = (lambda * m' + r') mod ord.
+  Proof.
+    split; [|apply int_openings_coincide_if].
+    rewrite !int_commit_exponent. rewrite (expi_mod_ord (lambda * m + r)), (expi_mod_ord (lambda * m' + r')).
+    pose proof (Z.mod_pos_bound (lambda * m + r) ord Hord) as Ha.
+    pose proof (Z.mod_pos_bound (lambda * m' + r') ord Hord) as Hb.
+    intros E. destruct (Z_le_gt_dec ((lambda * m + r) mod ord) ((lambda * m' + r') mod ord)) as [Hle|Hgt].
+    - apply expi_inj_below; [clear - Ha Hle; lia|clear - Hb; lia|exact E].
+    - symmetry. apply expi_inj_below; [clear - Hb Hgt; lia|clear - Ha; lia|symmetry; exact E].
+  Qed.
+
+  Theorem int_open_iff_exponent m r m' r' :
+    int_open k (int_commit k m r) m' r' = true <-> (lambda * m' + r') mod ord = (lambda * m + r) mod ord.
+  Proof.
+    rewrite int_open_spec, int_commit_normal. rewrite int_openings_coincide_iff. split; intros E; symmetry; exact E.
+  Qed.
+End IntCom.
+
+(* Equivocate never refuses on a valid trapdoor key over a prime-order group *)
+Theorem ped_equivocate_total q t m r m' :
+  prime q -> tk_lambda t mod q <> 0 -> exists r', ped_equivocate q t m r m' = Some r'.
+Proof.
+  intros Hp Hl. pose proof (prime_ge_2 q Hp) as Hq.
+  assert (Hrel : rel_prime (tk_lambda t) q).
+  { apply rel_prime_sym. apply prime_rel_prime; [exact Hp|]. intros Hd. apply Hl. apply Z.mod_divide; [lia|exact Hd]. }
+  destruct (rel_prime_bezout _ _ Hrel) as [u v Huv].
+  destruct (try_inv_complete q (tk_lambda t) u ltac:(lia)) as [x Hx].
+  { rewrite <- (Z.mod_1_l q) by lia. rewrite <- Huv.
+    rewrite Z_mod_plus_full. f_equal. ring. }
+  unfold ped_equivocate. rewrite Hx. eexists; reflexivity.
+Qed.
+
 (* ===================================================================== *)
 (* keys extracted from transcripts                                        *)
 (* ===================================================================== *)
